@@ -7,7 +7,7 @@ CONSTANTS
  SchemeBound = FALSE
  StripOnRedirect = FALSE
  MaxFaults = 4
- Confs <- CoreConfs
+ Confs <- DeepConfs
  ChalKinds <- CoreChal
  FaultKinds <- QuickFaults
  RedirTo <- CoreRedir
